@@ -428,3 +428,40 @@ pub fn saturation_script(r: &mut Rng, _index: u64, _tier: Tier) -> (CaseCfg, Vec
     }
     (cfg, s)
 }
+
+
+/// C04 workload: the inbound QoS 2 table is (nearly) full when the connection is lost before the
+/// last PUBREC went out; the broker redelivers that PUBLISH on the next connection.
+pub fn c04_script(r: &mut Rng, _index: u64, _tier: Tier) -> (CaseCfg, Vec<Step>) {
+    use crate::refcodec::SPacket;
+    let cfg = CaseCfg { rx: 128, tx: 512, keepalive: 0, ..CaseCfg::default() };
+    let n = *r.pick(&[8u16, 8, 8, 7, 3]);
+    let base = *r.pick(&[1u16, 100, 65520]);
+    let publish = |pid: u16, dup: bool| Step::Broker(BrokerAct::Send(SPacket::Publish { dup, qos: 2, retain: false, topic: "q2".into(), pid: Some(pid), props: vec![], payload: vec![pid as u8, 1] }));
+    let mut s = vec![connect_with(SpMode::Force(false), AckMode::Hold, vec![])];
+    for k in 0..n {
+        s.push(publish(base + k, false));
+        s.push(poll0()); // delivered
+        if k + 1 < n {
+            s.push(poll0()); // PUBREC written (the broker's PUBREL is withheld)
+        }
+    }
+    // the PUBREC of the last one was never written
+    s.push(Step::DropConn);
+    let resumed = r.chance(4, 5);
+    s.push(connect_with(SpMode::Force(resumed), AckMode::Hold, vec![]));
+    // the broker never saw that PUBREC: it sends the PUBLISH again (and, sometimes, an earlier one
+    // whose PUBREC it did see - after a fresh session both are new messages)
+    s.push(publish(base + n - 1, true));
+    if !resumed && r.chance(1, 2) {
+        s.push(publish(base, false));
+    }
+    for _ in 0..4 {
+        s.push(poll0());
+    }
+    s.push(Step::Broker(BrokerAct::Release { n: 99, order: Order::Fifo }));
+    for _ in 0..24 {
+        s.push(poll0());
+    }
+    (cfg, s)
+}
